@@ -253,35 +253,6 @@ theorem pyHostname_of_no_percent {n : Str} (h : '%' ∉ pyHostinfoHost n) :
 theorem unbracket_bracketed (inner : Str) : unbracket ('[' :: inner ++ [']']) = inner := by
   simp [unbracket]
 
-/-- on a netloc of the (suffix-aware) grammar `.hostname` is the lower-cased host, brackets
-removed -/
-theorem pyHostname_wf {n : Str} (hwf : wfNetloc n = true) (hsa : wfHostSA n = true) :
-    pyHostname n = lower (unbracket (specHost n)) := by
-  have hi := pyHostinfoHost_wf hwf
-  rw [pyHostname_of_no_percent, hi]
-  rw [hi]
-  obtain ⟨_, _, _, hh, _⟩ := wfNetloc_shape hwf
-  unfold wfHostSA at hsa
-  rcases hh with ⟨inner, hin, _⟩ | hp
-  · rw [hin] at hsa ⊢
-    simp only [List.cons_append, List.dropLast_concat, Bool.and_eq_true] at hsa
-    rw [unbracket_bracketed]
-    intro hm
-    have := mem_lower_of_mem (x := '%') (by decide) hm
-    have := (List.all_eq_true.mp hsa.2) _ this
-    simp [isHexDigit, isAsciiDigit] at this
-  · have hu : unbracket (specHost n) = specHost n := by
-      unfold unbracket
-      split
-      · next r heq => exact absurd (by rw [heq]; simp) (fun h : '[' ∈ specHost n => (hp _ h).2.1 rfl)
-      · rfl
-    rw [hu]
-    split at hsa
-    · next r heq => exact absurd (by rw [heq]; simp) (fun h : '[' ∈ specHost n => (hp _ h).2.1 rfl)
-    · intro hm
-      have := noneOf_iff.mp hsa _ hm
-      simp at this
-
 theorem not_bracket_of_plain {h : Str} (hp : Plain h) (r : Str) : h ≠ '[' :: r := by
   intro e
   exact (hp '[' (by rw [e]; simp)).2.1 rfl
@@ -300,12 +271,51 @@ theorem wfHostSA_of_plain {n : Str} (hp : Plain (specHost n)) :
   · rfl
 
 theorem wfHostSA_bracketed {n inner : Str} (h : specHost n = '[' :: inner ++ [']']) :
-    wfHostSA n = (inner.contains ':' && (lower inner).all (fun c => isHexDigit c || c == ':')) := by
+    wfHostSA n = true := by
   unfold wfHostSA
   rw [h]
-  simp only [List.cons_append, List.dropLast_concat]
+  rfl
 
 theorem wfHostSA_congr {n n' : Str} (h : specHost n' = specHost n) : wfHostSA n' = wfHostSA n := by
   unfold wfHostSA; rw [h]
+
+/-- on a plain host without `%` (the suffix-aware grammar) `.hostname` is the lower-cased host -/
+theorem pyHostname_plain {n : Str} (hwf : wfNetloc n = true) (hp : Plain (specHost n))
+    (hpct : '%' ∉ specHost n) : pyHostname n = lower (specHost n) := by
+  have hi := pyHostinfoHost_wf hwf
+  rw [unbracket_plain hp] at hi
+  rw [pyHostname_of_no_percent (by rw [hi]; exact hpct), hi]
+
+/-- lower-casing `.hostname` is lower-casing the host (CPython leaves only the zone id as
+written) -/
+theorem lower_pyHostname (n : Str) : lower (pyHostname n) = lower (pyHostinfoHost n) := by
+  unfold pyHostname
+  simp only
+  cases hs : splitAtFirst '%' (pyHostinfoHost n) with
+  | none => simp only [lower_idem]
+  | some az =>
+    obtain ⟨a, z⟩ := az
+    have e := (splitAtFirst_eq_some.mp hs).1
+    simp only
+    rw [e, lower_append, lower_append, lower_idem, lower_cons]
+
+/-- on a plain host, `.hostname` lower-cased is the host lower-cased (with or without `%`) -/
+theorem lower_pyHostname_plain {n : Str} (hwf : wfNetloc n = true) (hp : Plain (specHost n)) :
+    lower (pyHostname n) = lower (specHost n) := by
+  rw [lower_pyHostname, pyHostinfoHost_wf hwf, unbracket_plain hp]
+
+theorem not_mem_percent_of_wfHostSA {n : Str} (hp : Plain (specHost n)) (hsa : wfHostSA n = true) :
+    '%' ∉ specHost n := by
+  rw [wfHostSA_of_plain hp] at hsa
+  intro hm
+  have := noneOf_iff.mp hsa _ hm
+  simp at this
+
+theorem head_bracket_plain {h : Str} (hp : Plain h) : (h.head? == some '[') = false := by
+  cases h with
+  | nil => rfl
+  | cons c r =>
+    have : c ≠ '[' := (hp c (by simp)).2.1
+    simp [this]
 
 end Ural.Lru
